@@ -287,6 +287,36 @@ func c04SectionBookkeeping(r *an.Run) {
 		}
 		good := len(secIn) == 1 && len(secAfter) == 1 && len(dotsIn) == 1 && secIn[0].Block() == dotsIn[0].Block()
 		r.Check(good, short(f)+"|dots-and-sections-together", f.Pos(), "a section is closed exactly where a '...' is recorded (%d/%d appends in the loop, same block) and the last section is appended after the loop (%d)", len(secIn), len(dotsIn), len(secAfter))
+		// and every "..." closes a section: from the true edge of the isDots test, no way back to the loop
+		// header avoids the block that records the section and the elision (an elision folded into its
+		// neighbour changes which "..." carries the run — the shortest-run-first rule)
+		if good {
+			nDots := 0
+			for b := range loop.Blocks {
+				iff, ok := b.Instrs[len(b.Instrs)-1].(*ssa.If)
+				if !ok {
+					continue
+				}
+				cond, pos := an.StripNot(iff.Cond)
+				call, ok := cond.(*ssa.Call)
+				if !ok || call.Call.IsInvoke() {
+					continue
+				}
+				if p, isParam := call.Call.Value.(*ssa.Parameter); !isParam || p.Name() != f.Params[len(f.Params)-1].Name() {
+					continue
+				}
+				nDots++
+				succ := 0
+				if !pos {
+					succ = 1
+				}
+				start := b.Succs[succ]
+				reach := an.Reach([]*ssa.BasicBlock{start}, func(x *ssa.BasicBlock, i int) bool { return x == secIn[0].Block() })
+				avoids := reach[loop.Header] && start != secIn[0].Block()
+				r.Check(!avoids, short(f)+"|every-dots-closes-a-section", iff.Pos(), "every item the elision test accepts closes the running section and records the elision: none is folded into a neighbour or skipped")
+			}
+			r.Check(nDots == 1, short(f)+"|dots-test", f.Pos(), "the loop tests each item with the elision predicate it was given (found %d such branch(es))", nDots)
+		}
 		if len(secAfter) == 1 {
 			r.Check(loop.Header.Dominates(secAfter[0].Block()) && mustPassAllPaths(f, loop.Header.Succs[1], secAfter[0].Block()), short(f)+"|final-section", secAfter[0].Pos(), "every way out of the loop appends the final section (len(Dots) == len(Sections)-1)")
 		}
@@ -837,6 +867,42 @@ func c04AssociationReported(r *an.Run) {
 		r.Check(isAssoc, short(f)+"|connectDots-map", c.Pos(), "associations are written into the replacer compiler's dotAssoc (the map the replacers read)")
 	}
 	r.Check(n == 1, short(f)+"|connectDots-called", f.Pos(), "compileChange associates the elisions of both sides once (found %d call(s))", n)
+	// connectDots itself: every '+' elision is associated or reported — success is returned only after the
+	// loop over the '+' elisions has run to its end, and every iteration either records an association or
+	// leaves with an error (no shortcut "nothing to connect" that also skips the report for a '+' elision
+	// that has no '-' counterpart at all)
+	rhs := paramAt(cd, 2)
+	var il *an.IndexLoop
+	if rhs != nil {
+		for _, l := range an.Loops(cd) {
+			if x := an.AsIndexLoop(l); x != nil {
+				if bc, ok := x.Bound.(*ssa.Call); ok && an.IsCallTo(bc, "builtin:len") && (bc.Call.Args[0] == ssa.Value(rhs) || an.Path(bc.Call.Args[0]) == rhs.Name()) {
+					il = x
+				}
+			}
+		}
+	}
+	if r.Check(il != nil && il.Start == 0 && il.Step == 1, short(cd)+"|plus-loop", cd.Pos(), "connectDots loops over all '+' elisions") {
+		var upd ssa.Instruction
+		for _, in := range an.StoresIn(cd) {
+			if mu, ok := in.(*ssa.MapUpdate); ok && il.Loop.Blocks[mu.Block()] {
+				upd = mu
+			}
+		}
+		if r.Check(upd != nil, short(cd)+"|records", cd.Pos(), "each '+' elision is recorded in the association map") {
+			msg := il.CoversAll(upd, func(b *ssa.BasicBlock) bool {
+				ret := an.ReturnOf(b)
+				return ret != nil && !an.IsNilConst(ret.Results[len(ret.Results)-1])
+			})
+			r.Check(msg == "", short(cd)+"|all-associated-or-reported", upd.Pos(), "every '+' elision is associated with a '-' elision, or the loop is left with an error %s", msg)
+		}
+		for _, ret := range an.Returns(cd) {
+			if !an.IsNilConst(ret.Results[len(ret.Results)-1]) {
+				continue
+			}
+			r.Check(il.Loop.Header.Dominates(ret.Block()) && !il.Loop.Blocks[ret.Block()], short(cd)+"|success-after-the-loop", ret.Pos(), "connectDots reports success only after it has looked at every '+' elision")
+		}
+	}
 }
 
 func c04ForDots(r *an.Run) {
